@@ -76,6 +76,20 @@ pub fn run(seed: u64, sets: usize, nmax: usize, tw: &mut TraceWriter) -> (u64, u
                 }
             }
         }
+        // every third set: some (or all) of the active members are Suspect - gossiped suspicions at their
+        // incarnation, never refuted and never timing out here: still active, still to be pinged in turn
+        if run % 3 == 1 {
+            let mut act: Vec<Id> = node.foca.iter_members().map(|m| *m.id()).collect();
+            act.shuffle(&mut r);
+            let k = if r.random_range(0..2) == 0 { act.len() } else { r.random_range(1..=act.len().max(1)) };
+            let sus: Vec<Member<Id>> = act.iter().take(k).map(|i| Member::new(*i, 0, State::Suspect)).collect();
+            if !sus.is_empty() {
+                now += 10;
+                let out = node.call(&Call::ApplyMany(sus, true), tw, now);
+                let mut rm = vec![];
+                grab(&out.effects, &mut probe_timer, &mut rm);
+            }
+        }
         // the stable phase: 6n rounds, every Ping acknowledged (every 40th set: 300 rounds, so that the
         // u8 probe number wraps around)
         let rounds = if run % 40 == 7 { 300 } else { 6 * n };
